@@ -279,7 +279,21 @@ type ArchName struct {
 
 func genArchNameAny(t *rapid.T) ArchName {
 	comp := []string{"any", "all", "gnu", "musl", "linux", "kfreebsd", "hurd", "amd64", "i386", "arm64", "", "x", "eabi"}
-	switch rapid.IntRange(0, 5).Draw(t, "k") {
+	switch rapid.IntRange(0, 6).Draw(t, "k") {
+	case 6:
+		// the product of dpkg's tables: every CPU (the ABI-carrying aliases armhf, armel, x32,
+		// mipsn32 ... among them) alone, behind every OS, and behind every ABI-OS pair
+		cpu := rapid.SampledFrom([]string{"amd64", "i386", "arm64", "armhf", "armel", "arm", "armeb", "mips", "mipsel", "mips64el", "ppc64el", "powerpc", "powerpcspe", "riscv64", "s390x", "x32", "sparc64", "sh4", "m68k", "ia64", "alpha", "hppa", "arm64ilp32", "mipsn32", "mipsn32el", "loong64", "any"}).Draw(t, "pcpu")
+		os := rapid.SampledFrom([]string{"linux", "kfreebsd", "hurd", "freebsd", "netbsd", "openbsd", "darwin", "solaris", "uclinux", "mint", "any"}).Draw(t, "pos")
+		abi := rapid.SampledFrom([]string{"gnu", "musl", "uclibc", "gnueabi", "gnueabihf", "gnux32", "gnuabin32", "gnuspe", "eabi", "eabihf", "base", "bsd", "sysv", "any"}).Draw(t, "pabi")
+		switch rapid.IntRange(0, 2).Draw(t, "pparts") {
+		case 0:
+			return ArchName{cpu}
+		case 1:
+			return ArchName{os + "-" + cpu}
+		default:
+			return ArchName{abi + "-" + os + "-" + cpu}
+		}
 	case 0:
 		return ArchName{genArchName(t, "real")}
 	case 1, 2, 3:
@@ -296,7 +310,7 @@ func genArchNameAny(t *rapid.T) ArchName {
 
 var specC05ArchName = Register(&Spec[ArchName]{
 	Prop: "C05", Name: "archname",
-	Rule: "architecture names of 1..4 dash-separated components over {any, all, gnu, musl, linux, kfreebsd, hurd, amd64, i386, arm64, eabi, x, empty}, real Debian names, and random [a-z0-9-]* strings; for every name ParseArch accepts: ParseArch(String(ParseArch(n))) must equal ParseArch(n) on all of (ABI, OS, CPU), String must be a fixpoint, and MarshalControl/UnmarshalControl must carry the same triple. Non-trivial: a component is 'any', or the name has >= 2 parts; distinct by name.",
+	Rule: "architecture names of 1..4 dash-separated components over {any, all, gnu, musl, linux, kfreebsd, hurd, amd64, i386, arm64, eabi, x, empty}, real Debian names, the product of dpkg's CPU (27), OS (11) and ABI (14) tables in one-, two- and three-part spellings, and random [a-z0-9-]* strings; for every name ParseArch accepts: ParseArch(String(ParseArch(n))) must equal ParseArch(n) on all of (ABI, OS, CPU), String must be a fixpoint, and MarshalControl/UnmarshalControl must carry the same triple. Non-trivial: a component is 'any', or the name has >= 2 parts; distinct by name.",
 	Check: func(c ArchName, r *Recorder) error {
 		a1, err := dependency.ParseArch(c.N)
 		if err != nil {
